@@ -471,20 +471,21 @@ func (rn *runner) classify(s *proc.Server, q querySpec, o *observation, l kit.La
 	generic := fmt.Sprintf("aggregate-differs-from-rows|%s|group=%s|%s", q.Func, q.Group, why)
 	onlyWrong := len(o.wrong) > 0 && len(o.dup)+len(o.missing)+len(o.extra) == 0
 
-	// (1) descending order with time buckets
-	if q.Desc && q.byTime() {
-		if (q.Func == "first" || q.Func == "last") && onlyWrong {
-			opposite := map[string]string{"first": "last", "last": "first"}[q.Func]
-			all := true
-			for _, k := range o.wrong {
-				if !applyFunc(opposite, q.Kind, o.groups[k]).admits(o.got[k]) {
-					all = false
-				}
-			}
-			if all {
-				return "first-last-swapped-under-order-by-time-desc|group=" + q.Group
+	// (1) descending order: first/last exchanged (with and without time buckets) ...
+	if q.Desc && (q.Func == "first" || q.Func == "last") && onlyWrong {
+		opposite := map[string]string{"first": "last", "last": "first"}[q.Func]
+		all := true
+		for _, k := range o.wrong {
+			if !applyFunc(opposite, q.Kind, o.groups[k]).admits(o.got[k]) {
+				all = false
 			}
 		}
+		if all {
+			return "first-last-swapped-under-order-by-time-desc|group=" + q.Group
+		}
+	}
+	// ... or buckets mixed up although the same query in ascending order agrees
+	if q.Desc && q.byTime() {
 		asc := q
 		asc.Desc = false
 		if ao, err := rn.observe(s, asc); err == nil && !ao.differs() && l.Ordered >= 2 && (l.ActiveMem || l.Unordered > 0) {
